@@ -26,6 +26,7 @@ Oracle (only what the statement says):
   raised     a conversion that raises
 """
 
+import os
 import datetime
 import itertools
 import json
@@ -284,6 +285,9 @@ class Ctx:
             if self.mask[name] != [t is None for t in toks]:
                 raise RuntimeError(f"harness: tokens {toks!r} and built array {a!r} disagree on missing positions")
         self.d = di.DataFrame({name: self.arrays[name].copy() for name in self.names})
+        if os.environ.get("MC_ARRAY_FORM") in V.PROVENANCE:
+            # provenance: the frame that is converted is itself the product of rbind / slice / deepcopy / an Arrow round trip
+            self.d = V.frame_via(self.d, os.environ["MC_ARRAY_FORM"])
         if list(self.d.keys()) != self.names or any(self.d[name].dtype != self.arrays[name].dtype for name in self.names):
             raise RuntimeError(f"harness: constructor did not keep the columns as given: {V.frame_key(self.d)!r}")
         self.before = V.frame_key(self.d)
@@ -467,6 +471,10 @@ def shards(tier):
     for sh in list(out):
         if sh["part"] == "single" and sh["n"] <= 2 and any(t in str(sh["fam"]).lower() for t in ("date", "time", "ns", "us", "ms", "day")):
             out.append(dict(sh, __env__={"TZ": "America/St_Johns"}))
+    for sh in list(out):
+        if "__env__" not in sh and ((sh["part"] == "single" and sh["n"] <= 2) or (sh["part"] == "pair" and sh["n"] == 2)):
+            for form in (("viarbind",) if tier == "quick" else ("viarbind", "viaslice", "viadeepcopy", "viaarrow")):
+                out.append(dict(sh, __env__={"MC_ARRAY_FORM": form}))
     return out
 
 
